@@ -523,15 +523,26 @@ class Analyzer:
             if P is not None:
                 n = self.vlen(st, P)
                 st.env[P + ("#len",)] = Lin(n.s, n.k + 1)
+                v = self.operand_value(st, args[1]) if len(args) > 1 else None
+                st.env[P + ("#last",)] = v if isinstance(v, tuple) and v and v[0] == "collected" else ("unknown",)
+            return True
+        if dfn == "core::iter::traits::iterator::Iterator::collect" and dest is not None:
+            v = self.operand_value(st, args[0]) if args else None
+            if isinstance(v, tuple) and v and v[0] == "drained":
+                st.env[dest] = ("collected", v[1])
             return True
         if dfn == "alloc::vec::Vec::<T, A>::drain":
             P = tgt(0)
             full = "RangeFull" in " ".join(t["f"].get("ga", []))
             self.oblige(bb, full, "drain(..) over the full range cannot be out of bounds" if full else "drain over a sub-range")
             if P is not None:
+                before = st.env.get(P + ("#len",))
                 self.havoc(st, P)
                 if full:
                     st.env[P + ("#len",)] = Lin("0", 0)
+                    if dest is not None:
+                        # the iterator yields the whole former content of P
+                        st.env[dest] = ("drained", (P, before))
             return True
         if dfn in ("<alloc::vec::Vec<T, A> as core::ops::index::Index<I>>::index",
                    "<alloc::vec::Vec<T, A> as core::ops::index::IndexMut<I>>::index_mut",
@@ -702,6 +713,9 @@ class Analyzer:
                             feasible = self.assume(s2, dv, False)
                         elif listed == {0, 1}:
                             feasible = False
+                    elif isinstance(dv, tuple) and dv and dv[0] == "discr" and not str(dv[2]).startswith("core::option::Option"):
+                        # remember which variant of another enum this path is about
+                        s2.env[("#variant",) + tuple(dv[1])] = v
                     elif isinstance(dv, tuple) and dv and dv[0] == "discr" and str(dv[2]).startswith("core::option::Option"):
                         P = dv[1]
                         cur = s2.env.get(P + ("#tag",))
